@@ -234,6 +234,55 @@ def cases_of(arm_text):
     raise TranslateError("arm `%s…` is not of a shape the translator reads" % t[:80])
 
 
+
+def tree_file(tree):
+    """Gen/RowsTree.lean: the estimates as a pair of mutually inductive term types (plans / selectivities, so that
+    the roles of the operands are types), the estimate of a term, and the induction that lifts the arm statements to
+    EVERY term: `est_inv_of_arms`, which takes the arm statements as hypotheses (proved in Thm/C17Rows.lean)."""
+    def is_p(t, v):
+        return v in ROWS_VARS or (t["in_arm"] and v == "b")
+    cons = {True: [], False: []}
+    ests = {True: [], False: []}
+    invs = {True: [], False: []}
+    for t in tree:
+        ctor = t["name"][len("rows_"):]
+        fields, args, hyps = [], [], []
+        for v in t["vars"]:
+            ty = "PNode" if is_p(t, v) else "SNode"
+            fields.append("(%s : %s)" % (v, ty)); args.append("%s.est" % v)
+            if is_p(t, v):
+                hyps.append("(PNode.inv %s)" % v)
+            else:
+                hyps.append("(SNode.inv %s).1" % v); hyps.append("(SNode.inv %s).2" % v)
+        for pn, kind in t["params"]:
+            if kind == "nat":
+                fields.append("(%s : Nat)" % pn); args.append(pn)
+            else:
+                fields.append("(%s : Rat) (h_%s : 0 ≤ %s)" % (pn, pn, pn)); args.append(pn); hyps.append("h_%s" % pn)
+        pats = " ".join(f for fl in fields for f in re.findall(r"\((\w+) :", fl))
+        cons[t["plan"]].append("  | %s %s" % (ctor, " ".join(fields)))
+        ests[t["plan"]].append("  | .%s %s => %s %s" % (ctor, pats, t["name"], " ".join(args)))
+        call = "a_%s %s %s" % (t["name"], " ".join(args) if args else "()", " ".join(hyps))
+        invs[t["plan"]].append("  | .%s %s => %s" % (ctor, pats, call.strip()))
+    hy = " ".join("(a_%s : stmt_%s)" % (t["name"], t["name"]) for t in tree)
+    out = ["import RlModel.Gen.RowsArms",
+           "/-! GENERATED by translator/gen_rows.py from src/planner/rules/rows.rs — do not edit.",
+           "Every value `analyze_rows` can compute, as a term: `PNode` = plans, `SNode` = everything else. -/",
+           "namespace RlModel.Rows", "", "mutual", "inductive PNode where"] + cons[True] + ["inductive SNode where"] + cons[False] + ["end", "",
+           "mutual", "def PNode.est : PNode → Rat"] + ests[True] + ["def SNode.est : SNode → Rat"] + ests[False] + ["end", "",
+           "section", "variable " + hy, "include " + " ".join("a_" + t["name"] for t in tree), "", "mutual",
+           "/-- a plan's estimate is never negative (given the arm statements) -/",
+           "theorem PNode.inv : (p : PNode) → 0 ≤ p.est"] + invs[True] + [
+           "/-- a selectivity is within [0, 1] (given the arm statements) -/",
+           "theorem SNode.inv : (s : SNode) → 0 ≤ s.est ∧ s.est ≤ 1"] + invs[False] + ["end", "end", "",
+           "/-- **The arm statements lift to every term**: no estimate of a plan is negative, every selectivity is within [0, 1]. -/",
+           "theorem est_inv_of_arms " + hy + " :",
+           "    (∀ p : PNode, 0 ≤ p.est) ∧ (∀ s : SNode, 0 ≤ s.est ∧ s.est ≤ 1) :=",
+           "  ⟨PNode.inv " + " ".join("a_" + t["name"] for t in tree) + ", SNode.inv " + " ".join("a_" + t["name"] for t in tree) + "⟩",
+           "", "end RlModel.Rows", ""]
+    return "\n".join(out)
+
+
 def main():
     repo = sys.argv[1] if len(sys.argv) > 1 else os.environ.get("VERIF_REPO", "/repo")
     outdir = sys.argv[2] if len(sys.argv) > 2 else os.path.join(VERIF, "lean/RlModel/Gen")
@@ -251,7 +300,7 @@ def main():
             clamp, cps = parse_expr(tail.replace("rows", "x(rows)"))
         elif tail:
             raise TranslateError("unexpected text after the match: `%s`" % tail[:60])
-        defs, stmts, names = [], [], []
+        defs, stmts, names, tree = [], [], [], []
         for pat, text in arms:
             heads = re.findall(r"\b([A-Z][A-Za-z0-9_]*)\b", re.sub(r"\(DataValue::Bool\((true|false)\)\)", r"_\1", pat))
             label = "_".join(heads) if heads else ("default" if pat.strip() == "_" else None)
@@ -282,6 +331,8 @@ def main():
                     elif kind == "fmax":
                         binders.append("(fmax : Rat)"); hyps.append("1 ≤ fmax")
                 args = " ".join(b.split()[0][1:] for b in binders)
+                tree.append({"name": name, "plan": is_plan, "vars": vars_, "in_arm": in_arm,
+                             "params": sorted((pn, kind) for pn, kind in ps.items() if kind in ("nat", "lim"))})
                 defs.append("def %s %s : Rat :=\n  %s" % (name, " ".join(binders), expr))
                 goal = ("0 ≤ %s %s" % (name, args)) if is_plan else ("0 ≤ %s %s ∧ %s %s ≤ 1" % (name, args, name, args))
                 stmts.append("/-- arm `%s`%s of analyze_rows -/\ndef stmt_%s : Prop :=\n  ∀ %s, %s%s" % (
@@ -304,6 +355,7 @@ def main():
             "def armNames : List String := [%s]" % ", ".join('"%s"' % n for n in names), "", "end RlModel.Rows", ""]
     os.makedirs(outdir, exist_ok=True)
     _write_if_changed(os.path.join(outdir, "RowsArms.lean"), "\n".join(out))
+    _write_if_changed(os.path.join(outdir, "RowsTree.lean"), tree_file(tree))
     import json
     json.dump({"arms": names, "clamped": bool(clamp)}, open(os.path.join(outdir, "rows_arms.json"), "w"))
     print("gen_rows: %d cases of %d arms%s -> %s" % (len(names), len(arms), ", clamped" if clamp else "", os.path.join(outdir, "RowsArms.lean")))
